@@ -11,7 +11,12 @@ part of the environment in with
 
 import contextlib
 import itertools
+import re
 import types
+
+# "<function render_body.<locals>.<lambda> at 0x7f...>" inside a string: the address and the enclosing function's name
+# are not part of the value
+_OBJ_REPR = re.compile(r"<([a-z][a-z ]*) (?:[\w<>]+\.)*([\w<>]+) at 0x[0-9a-fA-F]+>")
 
 VALUE_POOLS = [
     {"x": 3, "y": 2, "z": 5, "s": "ab"},
@@ -37,7 +42,9 @@ def _canon(v, d=0):
     if d > 5:
         return "<deep>"
     t = type(v)
-    if t in (int, float, complex, str, bytes, bool, type(None), type(Ellipsis)):
+    if t is str:
+        return ("str", repr(_OBJ_REPR.sub(r"<\1 \2>", v)))
+    if t in (int, float, complex, bytes, bool, type(None), type(Ellipsis)):
         return (t.__name__, repr(v))
     if t in (tuple, list):
         return (t.__name__, [_canon(i, d + 1) for i in v])
